@@ -270,6 +270,13 @@ def shape_of_con(con, path=(), text=False):
 # interpreter
 
 
+class LazyField:
+    """a field of a model object that is computed on access (e.g. Path.parent)"""
+
+    def __init__(self, fn):
+        self.fn = fn
+
+
 class Scope:
     def __init__(self, owner, parent=None, vars=None):
         self.owner = owner  # FuncInfo or Module
@@ -316,11 +323,92 @@ class Interp:
     # ------------------------------------------------------------- names
     def module_scope(self, mod):
         if mod.name not in self.module_cache:
-            self.module_cache[mod.name] = Scope(mod, None, {})
+            self.module_cache[mod.name] = sc = Scope(mod, None, {})
+            self._import_effects(mod, sc)
         return self.module_cache[mod.name]
+
+    NEUTRAL_DECORATORS = ("curry", "staticmethod", "classmethod", "property", "dataclass", "contextmanager", "wraps", "cache", "lru_cache", "cached_property", "total_ordering")
+
+    def _neutral_decorator(self, d):
+        f = d.func if isinstance(d, ast.Call) else d
+        return norm(f).split(".")[-1] in self.NEUTRAL_DECORATORS
+
+    def _import_effects(self, mod, sc):
+        """what importing the module does besides binding names: module-level names are resolved lazily from their defining
+        expression, so statements that change an object after it was bound (``table.update(...)``, ``table[k] = v``, a
+        registering decorator, a top-level call, a loop) are replayed here in source order.  One that cannot be evaluated
+        taints the names it may have changed (every name of the module when that is not known): reading a tainted name is
+        an undecided evaluation, never a guess at the unchanged object"""
+        tree = getattr(mod, "tree", None)
+        if tree is None:
+            return
+        self.import_taint = getattr(self, "import_taint", {})
+        from collections import Counter
+        bound = Counter(t.id for st in tree.body if isinstance(st, ast.Assign) for t in st.targets if isinstance(t, ast.Name))
+        for st in tree.body:
+            names = None
+            if isinstance(st, ast.Assign) and all(isinstance(t, ast.Name) for t in st.targets) and any(bound[t.id] > 1 for t in st.targets):
+                # a name bound more than once: its bindings are replayed in order (the later one usually reads the earlier)
+                names = {t.id for t in st.targets}
+                try:
+                    self.exec_stmt(st, sc, [])
+                    for n in names:
+                        self.import_taint.get(mod.name, {}).pop(n, None)
+                except (ShapeError, _Raise, RecursionError, NonTermination) as e:
+                    for n in names:
+                        self.import_taint.setdefault(mod.name, {})[n] = f"{mod.relpath}:{st.lineno}: the module-level binding `{norm(st)[:60]}` cannot be evaluated ({str(e)[:100]})"
+                continue
+            if isinstance(st, ast.FunctionDef):
+                deco = [d for d in st.decorator_list if not self._neutral_decorator(d)]
+                if not deco:
+                    continue
+                run = lambda st=st, deco=deco: self._apply_decorators(st, deco, sc, mod)
+            elif isinstance(st, ast.Expr) and isinstance(st.value, ast.Call):
+                f = st.value.func
+                if isinstance(f, ast.Attribute) and isinstance(f.value, ast.Name):
+                    names = {f.value.id}
+                run = lambda st=st: self.eval(st.value, sc)
+            elif isinstance(st, (ast.Assign, ast.AugAssign)):
+                tg = st.targets if isinstance(st, ast.Assign) else [st.target]
+                if all(isinstance(t, ast.Name) for t in tg) and isinstance(st, ast.Assign):
+                    continue
+                roots = set()
+                for t in tg:
+                    while isinstance(t, (ast.Subscript, ast.Attribute)):
+                        t = t.value
+                    if isinstance(t, ast.Name):
+                        roots.add(t.id)
+                names = roots or None
+                if isinstance(st, ast.AugAssign) and isinstance(st.target, ast.Name):
+                    # rebinding: the name is assigned twice, which the lazy resolution already refuses to guess
+                    continue
+                run = lambda st=st: self.exec_stmt(st, sc, [])
+            elif isinstance(st, (ast.For, ast.While)):
+                run = lambda st=st: self.exec_stmt(st, sc, [])
+            else:
+                continue
+            try:
+                run()
+            except (ShapeError, _Raise, RecursionError, NonTermination) as e:
+                why = f"{mod.relpath}:{st.lineno}: the import-time statement `{norm(st)[:60]}` cannot be evaluated ({str(e)[:100]})"
+                if names is None:
+                    self.import_taint.setdefault(mod.name, {})[None] = why
+                else:
+                    for n in names:
+                        self.import_taint.setdefault(mod.name, {})[n] = why
+
+    def _apply_decorators(self, st, deco, sc, mod):
+        fi = mod.funcs.get(st.name)
+        v = Fn("repo", func=fi, name=st.name, closure=None)
+        for d in reversed(deco):
+            v = self.call(self.eval(d, sc), [v], {}, d)
+        sc.vars[st.name] = v
 
     def resolve_global(self, mod, name):
         sc = self.module_scope(mod)
+        taint = getattr(self, "import_taint", {}).get(mod.name)
+        if taint and (name in taint or None in taint):
+            raise ShapeError(taint.get(name) or taint[None])
         if name in sc.vars:
             return sc.vars[name]
         r = self.repo.resolve_module_name(mod, name)
@@ -674,6 +762,8 @@ class Interp:
             return self.external(f"{v.ext}.{attr}")
         if isinstance(v, Obj):
             if attr in v.fields:
+                if isinstance(v.fields[attr], LazyField):
+                    return v.fields[attr].fn()
                 return v.fields[attr]
             if getattr(v, "klass", None) is not None:
                 found = self.find_class_attr(v.klass[0], v.klass[1], attr)
@@ -688,6 +778,8 @@ class Interp:
                                 return self.call(bound, [], {}, node)
                             if "staticmethod" in deco:
                                 return Fn("repo", func=fi, name=fi.qualname, closure=None)
+                            if "classmethod" in deco:
+                                return Fn("repo", func=fi, name=fi.qualname, closure=None, bound=Fn("classctor", cls=v.klass[1], mod=v.klass[0], name=v.klass[1].name))
                             return bound
                     elif kind == "value":
                         return self.eval(item, self.module_scope(mod_))
@@ -712,6 +804,20 @@ class Interp:
         if isinstance(v, Fn) and v.kind == "lib":
             return Fn("lib", name=f"{v.name}.{attr}")
         if isinstance(v, Fn) and v.kind == "classctor":
+            found = self.find_class_attr(v.mod, v.cls, attr) if getattr(v, "mod", None) is not None else None
+            if found is not None:
+                kind, mod_, item = found
+                if kind == "method":
+                    fi = mod_.funcs.get(item[0])
+                    if fi is not None:
+                        deco = [norm(d) for d in fi.node.decorator_list]
+                        if "classmethod" in deco:
+                            return Fn("repo", func=fi, name=fi.qualname, closure=None, bound=v)
+                        if "property" in deco or any(d.endswith("cached_property") for d in deco):
+                            return Top(f"property object {attr}")
+                        return Fn("repo", func=fi, name=fi.qualname, closure=None)  # plain function through the class
+                elif kind == "value":
+                    return self.eval(item, self.module_scope(mod_))
             return Fn("lib", name=f"{v.name}.{attr}")
         return Top(f"attribute {attr} of {type(v).__name__}")
 
@@ -1211,7 +1317,10 @@ class Interp:
             fi = None
             if isinstance(owner, FuncInfo):
                 fi = owner.children.get(st.name)
-            sc.vars[st.name] = Fn("repo", func=fi, name=st.name, closure=sc, node=st)
+            v = Fn("repo", func=fi, name=st.name, closure=sc, node=st)
+            for d in reversed([d for d in st.decorator_list if not self._neutral_decorator(d)]):
+                v = self.call(self.eval(d, sc), [v], {}, d)
+            sc.vars[st.name] = v
             return
         if isinstance(st, (ast.With, ast.AsyncWith)) and len(st.items) == 1 and self._contextmanager_call(st.items[0].context_expr, sc) is not None:
             # `with cm(...):` where cm is a generator function of the package under @contextmanager: the statements up to its
@@ -1422,9 +1531,14 @@ class Interp:
         finally:
             self.depth -= 1
 
+    def is_callable(self, v):
+        return isinstance(v, Fn) or (isinstance(v, Obj) and ("__call__" in v.fields or (getattr(v, "klass", None) is not None and self.find_class_attr(v.klass[0], v.klass[1], "__call__") is not None)))
+
     def _call(self, f, args, kwargs, node):
         if isinstance(f, Choice):
             return Choice([self.call(a, args, kwargs, node) for a in f.alts])
+        if isinstance(f, Obj) and ("__call__" in f.fields or (getattr(f, "klass", None) is not None and self.find_class_attr(f.klass[0], f.klass[1], "__call__") is not None)):
+            return self.call(self.getattr(f, "__call__", node), args, kwargs, node)  # an instance of a class of the package that defines __call__
         if not isinstance(f, Fn):
             return Top(f"call of {type(f).__name__}: {short(node, 40) if node is not None else ''}")
         k = f.kind
